@@ -302,8 +302,8 @@ theorem writeAlias_nb (U : UnicodeOps) {cfg : Cfg} (H : CfgOk cfg) (a : RustType
   · exact formatType_nb H a.ty st ty _ ha.ty hty
   · nb_lit
 
-theorem writeConst_nb {cfg : Cfg} (H : CfgOk cfg) (c : RustConst) (hc : ConstScope c) (st : Imports)
-    (text : Str) (st' : Imports) (h : writeConst cfg c st = .ok (text, st')) : NB G text := by
+theorem writeConst_nb {U : UnicodeOps} {cfg : Cfg} (H : CfgOk cfg) (c : RustConst) (hc : ConstScope c) (st : Imports)
+    (text : Str) (st' : Imports) (h : writeConst U cfg c st = .ok (text, st')) : NB G text := by
   unfold writeConst constFacts at h
   obtain ⟨d, st1, hd, h⟩ := obind_pair_ok h
   cases h
